@@ -21,6 +21,40 @@ def prebuild():
     vlib.build_driver("drv_alloc", "pinned", LIB, **BUILD)
 
 
+def selector_recipes(work, model, tier):
+    import re
+    cfg2 = os.path.join(work, "SelectorAlloc.cfg")
+    with open(cfg2, "w") as f:
+        f.write('SPECIFICATION Spec\nCONSTANT Tier = "%s"\nINVARIANT Emit\nCHECK_DEADLOCK FALSE\n' % tier)
+    r2 = vlib.tlc_or_broken("Selector.tla", cfg2, workers=4, xmx="2g")
+    model.add("Selector[%s]" % tier, r2)
+    sel = re.findall(r'<<\s*"SEL",\s*"[^"]+",\s*"(\w+)",\s*(\d+),\s*(-?\d+),\s*(-?\d+),\s*(-?\d+),\s*(-?\d+),', r2["out"])
+    if len(sel) < 40:
+        raise Broken("Selector.tla produced too few recipes (%d)" % len(sel))
+    recipes = os.path.join(work, "alloc-recipes.txt")
+    with open(recipes, "w") as f:
+        for x in sorted(set(sel)):
+            f.write("R %s %s %s %s %s %s\n" % x)
+    return recipes
+
+
+def side_rejects(work, model, tier):
+    """The encoders of the fault-injection driver for the C03 check: every allocating encoder writes into a
+    destination of exactly the advertised size (guard page behind it) while allocation k = 1..A fails;
+    AllocTrace.tla owns 'written <= advertised' and 'no access beyond the destination' as C03 conjuncts.
+    Returns (events, rejects, number of traces)."""
+    recipes = selector_recipes(work, model, tier)
+    drv = vlib.build_driver("drv_alloc", "pinned", LIB, **BUILD)
+    traces, cmds = [], []
+    for s in range(vlib.NCPU):
+        out = os.path.join(work, "side-af-%02d.ndjson" % s)
+        traces.append(out)
+        cmds.append([drv, str(s), str(vlib.NCPU), out, recipes])
+    vlib.run_many(cmds, env={"VERIF_ALLOC_ENC": "1"})
+    events, rejects, _ = vlib.validate(traces, "AllocTrace.tla", "AllocTrace.cfg", xmx="3g")
+    return events, rejects, len(traces)
+
+
 def run(pid, tier):
     t0 = time.time()
     work = vlib.scratch(pid)
@@ -30,19 +64,7 @@ def run(pid, tier):
                                        "Leaky = TRUE\nMaxObjs = 2\nDepth = 5", "Invariant NoLeak is violated",
                                        props="INVARIANTS NoLeak Consistent\n")
         # threshold recipes of the adaptive selection tree as fault-injection inputs
-        import re
-        cfg2 = os.path.join(work, "Selector.cfg")
-        with open(cfg2, "w") as f:
-            f.write('SPECIFICATION Spec\nCONSTANT Tier = "%s"\nINVARIANT Emit\nCHECK_DEADLOCK FALSE\n' % tier)
-        r2 = vlib.tlc_or_broken("Selector.tla", cfg2, workers=4, xmx="2g")
-        model.add("Selector[%s]" % tier, r2)
-        sel = re.findall(r'<<\s*"SEL",\s*"[^"]+",\s*"(\w+)",\s*(\d+),\s*(-?\d+),\s*(-?\d+),\s*(-?\d+),\s*(-?\d+),', r2["out"])
-        if len(sel) < 40:
-            raise Broken("Selector.tla produced too few recipes (%d)" % len(sel))
-        recipes = os.path.join(work, "recipes.txt")
-        with open(recipes, "w") as f:
-            for x in sorted(set(sel)):
-                f.write("R %s %s %s %s %s %s\n" % x)
+        recipes = selector_recipes(work, model, tier)
         tiers = ["pinned"] if tier == "quick" else ["pinned", "debug"]
         seeds = [vlib.SEED] if tier == "quick" else [vlib.SEED + k for k in range(4)]
         traces, cmds = [], []
